@@ -5,7 +5,7 @@ from .core import Shard, run, align_lines, res_replay
 from .oracle import cal, dur
 
 KARGS = {"ymd": [], "ywd": [], "yd": [], "ymcw": [], "bizda": [],
-         "ldn": ["-i", "ldn", "-f", "ldn"], "mdn": ["-i", "mdn", "-f", "mdn"],
+         "ldn": ["-i", "ldn", "-f", "ldn"], "mdn": ["-i", "mdn", "-f", "mdn"], "jdn": ["-i", "jdn", "-f", "jdn"],
          # seconds since 1970 (midnights): held as one number, added to by its own routine
          "epoch": ["-i", "%s", "-f", "%s"]}
 
@@ -16,6 +16,9 @@ def ktext(K, o):
         return ("%d" % (o - cal.ORD_LDN0),)
     if K == "mdn":
         return ("%d" % (o + cal.MDN_OFF),)
+    if K == "jdn":
+        # read with one decimal, printed with six
+        return ("%.1f" % (o + cal.JDN_OFF), "%.6f" % (o + cal.JDN_OFF))
     if K == "epoch":
         return ("%d" % ((o - cal.ORD_UNIX) * 86400),)
     if K == "bizda":
@@ -73,7 +76,7 @@ def add_task(task):
     lines = [ktext(K, o)[0] for o, _ in pairs]
     kargs = KARGS[K]
     if OK_ is not None:
-        kargs = [a for a in kargs if a not in ("-f",)][:2] if K in ("ldn", "mdn") else list(kargs)
+        kargs = [a for a in kargs if a not in ("-f",)][:2] if K in ("ldn", "mdn", "jdn") else list(kargs)
         kargs = kargs + ["-f", OK_]
         tag = tag + ">" + OK_
     durs = list(durs)
